@@ -182,10 +182,11 @@ class Livelock(Exception):
 
 
 class VirtualClock:
-    def __init__(self):
+    def __init__(self, resolution=0.0):
         self.t = 1000.0
         self.reads_since_step = 0
         self.steps_seen = 0
+        self.resolution = resolution     # a clock that ticks (15.6 ms on some platforms) rather than flows
 
     def advance(self, dt):
         self.t += dt
@@ -195,7 +196,7 @@ class VirtualClock:
         self.reads_since_step += 1
         if self.reads_since_step > 1000:
             raise Livelock()
-        return self.t
+        return self.t if not self.resolution else np.floor(self.t / self.resolution) * self.resolution
 
 
 @st.composite
@@ -208,6 +209,7 @@ def timed_cases(draw, classes=("gibbs", "pca", "hmc", "metropolis")):
     cfg["unit"] = unit
     cfg["pre_steps"] = draw(st.sampled_from([0, 0, 30, 300, 2000]))   # samples already held by the chain before the timed run
     cfg["zero_budget"] = draw(st.integers(0, 11)) == 0                  # "every time budget": also none at all
+    cfg["clock_res"] = draw(st.sampled_from([0.0, 0.0, 0.0, 1e-3, 0.015625]))   # resolution of the clock the library reads
     return cfg
 
 
@@ -216,7 +218,7 @@ def body_timed(case, ctx):
     import inference.mcmc.utilities as util
 
     ch, tgt, info = S.build(case, record=False)
-    clock = VirtualClock()
+    clock = VirtualClock(case.get("clock_res", 0.0))
     tgt.clock = clock
     tgt.cost = 10.0 ** case["cost_log"]
     # evaluations per step (measured on this chain, before the timed run)
@@ -280,18 +282,19 @@ def body_timed(case, ctx):
         return
     if taken < 1:
         raise Violation(f"timed-no-step:{cls}", "run_for returned without taking a step")
-    if elapsed < budget * (1 - 1e-9):
+    if elapsed < budget * (1 - 1e-9) - clock.resolution:
         raise Violation(f"timed-early:{cls}", f"run_for returned after {elapsed:.6g} s of a {budget:.6g} s budget ({taken} steps)")
     # "and then stops": the run may overshoot by the progress batch in flight when the deadline passes - at most
     # max(20 steps, about one second's worth of steps) - judged with the mean step cost actually observed in the run
     c = elapsed / taken
-    allowance = 3 * (max(20 * c, 1.0) + c) + 0.25 * budget
+    allowance = 3 * (max(20 * c, 1.0) + c) + 0.25 * budget + 2 * clock.resolution
     if elapsed - budget > allowance:
         raise Violation(f"timed-overshoot:{cls}", f"budget {budget:.4g} s, ran {elapsed:.4g} s ({taken} steps of ~{c:.3g} s)")
     s, p = readouts(ch)
     if s.shape[0] != ch.chain_length or p.shape[0] != ch.chain_length:
         raise Violation(f"timed-lengths:{cls}", f"chain_length {ch.chain_length}, samples {s.shape}, probabilities {p.shape}")
     ctx.nontrivial(per_step > 1.0 and steps_budget > 20)
+    ctx.event("clock=" + ("continuous" if not clock.resolution else f"ticks of {clock.resolution:g} s"))
     ctx.event("cls=" + cls)
     ctx.event("step>1s" if per_step > 1.0 else ("step>1ms" if per_step > 1e-3 else "step<=1ms"))
     ctx.event("unit=" + case["unit"])
@@ -308,7 +311,8 @@ def timed_pt_cases(draw):
             "start_u": [[draw(st.floats(-1, 1)) for _ in range(d)] for _ in range(n)],
             "cost_log": draw(st.one_of(st.floats(-3, 2), st.sampled_from([-0.5, 0.0, 0.5, 1.0]))),
             "swap_interval": draw(st.sampled_from([1, 2, 3, 10])),
-            "cycles_log": draw(st.floats(-0.7, 2.3)), "unit": draw(st.sampled_from(["minutes", "hours", "mixed"]))}
+            "cycles_log": draw(st.floats(-0.7, 2.3)), "unit": draw(st.sampled_from(["minutes", "hours", "mixed"])),
+            "clock_res": draw(st.sampled_from([0.0, 0.0, 0.0, 0.015625]))}
 
 
 def body_timed_pt(case, ctx):
@@ -328,7 +332,7 @@ def body_timed_pt(case, ctx):
     budget = max(cycle * 10.0 ** case["cycles_log"], 0.05)
     kw = {"minutes": budget / 60.0} if case["unit"] == "minutes" else ({"hours": budget / 3600.0} if case["unit"] == "hours" else
                                                                        {"minutes": budget / 120.0, "hours": budget / 7200.0})
-    clock = VirtualClock()
+    clock = VirtualClock(case.get("clock_res", 0.0))
     with warnings.catch_warnings():
         warnings.simplefilter("ignore")
         pt = ParallelTempering(chains=chains)
@@ -365,10 +369,11 @@ def body_timed_pt(case, ctx):
                 p.terminate()
     if taken[0] < 1:
         raise Violation("timed-no-step:tempering", "run_for returned without taking a step")
-    if elapsed < budget * (1 - 1e-9):
+    if elapsed < budget * (1 - 1e-9) - clock.resolution:
         raise Violation("timed-early:tempering", f"run_for returned after {elapsed:.6g} s of a {budget:.6g} s budget ({taken[0]} steps of {cost:.3g} s, swap_interval {si})")
     # "and then stops": at most the progress group in flight (cycles worth about two seconds, or one cycle if slower) beyond the budget
-    allowance = 3 * (max(cycle, 2.0) + cycle) + 0.25 * budget
+    # (cycles faster than the clock's tick are grouped as if they took 10 ms: up to 200 of them per group)
+    allowance = 3 * (max(cycle, 2.0) + cycle) + 0.25 * budget + 2 * clock.resolution + (200 * cycle if clock.resolution else 0.0)
     if elapsed - budget > allowance:
         raise Violation("timed-overshoot:tempering", f"budget {budget:.4g} s, ran {elapsed:.4g} s ({taken[0]} steps of {cost:.3g} s, swap_interval {si})")
     lens = [int(c.chain_length) for c in out]
